@@ -76,3 +76,65 @@ func VerifRegisterAfterStop(scopeName string) bool {
 	defer b.Close()
 	return l.addConn(&verifConn{a})
 }
+
+// VerifDuringBind makes Drain (or Stop, when stop is true) arrive while Serve is inside the bind
+// call: after the socket is bound and before Serve has published it. It reports whether Serve
+// returned within the time allowed and whether the port still accepts connections afterwards.
+func VerifDuringBind(port uint32, stop bool, scopeName string, wait func(func() bool) bool) (serveReturned, portOpen bool) {
+	cfg := &service.Listener{Address: &common.Address{Ip: "127.0.0.1", Port: port}}
+	st := NewStats(stats.CreateScope(scopeName))
+	li, err := NewListener(cfg, st.Downstream, log.New("[verif]"), func(c net.Conn) { c.Write([]byte("x")) })
+	if err != nil {
+		return false, false
+	}
+	l := li.(*listener)
+	orig := defaultListenFunc
+	var once sync.Once
+	defaultListenFunc = func(network, address string) (net.Listener, error) {
+		ln, err := orig(network, address)
+		if err == nil {
+			once.Do(func() {
+				if stop {
+					go l.Stop()
+					// Stop blocks until Serve is over; give it time to set its flag
+					wait(func() bool { l.mu.Lock(); defer l.mu.Unlock(); return l.stopped })
+				} else {
+					l.Drain()
+				}
+			})
+		}
+		return ln, err
+	}
+	defer func() { defaultListenFunc = orig }()
+	done := make(chan struct{})
+	go func() { l.Serve(); close(done) }()
+	serveReturned = wait(func() bool {
+		select {
+		case <-done:
+			return true
+		default:
+			return false
+		}
+	})
+	c, err := net.Dial("tcp", cfg.Address.Ip+":"+itoa(port))
+	if err == nil {
+		portOpen = true
+		c.Close()
+	}
+	if !serveReturned {
+		l.Stop()
+	}
+	return
+}
+
+func itoa(n uint32) string {
+	if n == 0 {
+		return "0"
+	}
+	var b []byte
+	for n > 0 {
+		b = append([]byte{byte('0' + n%10)}, b...)
+		n /= 10
+	}
+	return string(b)
+}
